@@ -7,6 +7,7 @@ import numpy as np
 from .. import proto
 from ..core import Check, Problem, register
 
+DTYPES = ("bool", "int8", "uint8", "float32", "list")
 ENC = {
     "01": {0: 0, 1: 1},
     "pm1": {-1: -1, 1: 1},
@@ -224,6 +225,13 @@ class CHECK(Check):
             out[f"selrate:{tag}"] = call(fm.selection_rate, yt, yp.reshape(sh), pos_label=sp, sample_weight=wr)
             if case["enc"] != "str":
                 out[f"meanpred:{tag}"] = call(fm.mean_prediction, yt, yp.reshape(sh), sample_weight=wr)
+        # element types: the same {0,1} predictions as a bool mask, narrow integers, float32 and a plain list (seeded C14c:
+        # a unit-weight vector taking the dtype of y_pred turns the dot product into a logical OR / a wrapping int8 sum)
+        if case["enc"] == "01":
+            for dt in DTYPES:
+                ypd = yp.tolist() if dt == "list" else yp.astype(dt)
+                out[f"selrate:dt:{dt}"] = call(fm.selection_rate, yt, ypd, pos_label=sp, sample_weight=w)
+                out[f"meanpred:dt:{dt}"] = call(fm.mean_prediction, yt, ypd, sample_weight=w)
         return out
 
     def _shapes(self, case):
@@ -380,6 +388,20 @@ class CHECK(Check):
             elif mo is not None:
                 probs.append(Problem("harness", f"driver returned {len(mo)} lines for {2 * len(keys) + len(skeys)}"))
                 break
+        # element types of y_pred (oracle only; no model line: the model has one number type)
+        if case["enc"] == "01":
+            for dt in DTYPES:
+                for base in ("selrate", "meanpred"):
+                    k = f"{base}:dt:{dt}"
+                    got = o.get(k)
+                    if got is None:
+                        probs.append(Problem("correspondence", f"{k}: no implementation output", "impl-total"))
+                    elif got[0] == "exc":
+                        probs.append(Problem("property", f"{k}: valid input (y_pred as {dt}) raised {got}", "C14.accepts"))
+                    elif got[0] != "scalar":
+                        probs.append(Problem("property", f"{k}: result is not a scalar: {got}", "C14.scalar_result"))
+                    elif far(got[1], float(spec[base])):
+                        probs.append(Problem("property", f"{k}: got {got[1]!r}, first-principles value {spec[base]}", "C14.value"))
         # relations between the impl's own outputs (the property's clauses)
         def val(k):
             g = o.get(k)
